@@ -2,7 +2,7 @@ use crate::subtyping::IsEmptyStatus;
 use crate::subtyping::mapping::mapping_is_empty_impl;
 use crate::subtyping::{
     bdd::{Atom, Bdd, BddOps},
-    semtype::{BddMemoEmptyRef, MemoEmpty, SemTypeContext},
+    semtype::{BddMemoEmptyRef, MemoEmpty, ProvisionalEmpty, SemTypeContext},
 };
 use anyhow::Result;
 use std::rc::Rc;
@@ -138,7 +138,15 @@ fn mapping_is_empty_handle_recusrsion(
         }
     }
 
+    let mark = ctx.provisional_empty.len();
     let is_empty = mapping_is_empty_impl(dnf.clone(), ctx, is_map)?;
+    match is_empty {
+        // answers that assumed this type to be empty were memoised on the way: the assumption is refuted
+        IsEmptyStatus::NotEmpty => ctx.forget_provisional_empty_since(mark),
+        IsEmptyStatus::IsEmpty => ctx
+            .provisional_empty
+            .push(ProvisionalEmpty::Mapping(dnf.clone())),
+    }
     ctx.mapping_memo_dnf
         .get_mut(&dnf)
         .expect("bdd should be cached by now")
